@@ -36,5 +36,6 @@ FamilyF(p) ==
 \* what must hold of every observation: an outcome of the domain
 CaseF(P) == [key |-> P.key, fam |-> "F", prog |-> P,
              expect |-> <<[inj |-> "Inject", verdict |-> "free", reasons |-> {}, ambiguous |-> {}, cyclic |-> {}, missing |-> {},
-                           unused |-> {}, funcs |-> {}, wiring |-> [t \in {} |-> 0], scheds |-> <<>>]>>]
+                           unused |-> {}, funcs |-> {}, wiring |-> [t \in {} |-> 0], scheds |-> <<>>]>>,
+             invalidsets |-> {}]
 =============================================================================
